@@ -19,7 +19,7 @@ from pyvc.interp import Interp
 from pyvc.values import OutOfSubset
 
 from . import c13
-from .common import REPO, Result, load_known, match_known, parse_cases, run_venv
+from .common import REPO, Result, load_known, match_known, parse_cases, run_venv, tierb_json
 from .rules_family import FUNCTIONS, TRUSTED, _digest, _small_shape, symbolic_reports
 
 STEP_PROPS = ("C01", "C02", "C07", "C09")
@@ -85,13 +85,13 @@ def run(tier: str, seed: int) -> int:
         R.violation(f"one-step obligation {f['id']} failed: {f['clause']} [{f['cfg']}] {f['detail'][:160]} shape={json.dumps(_small_shape(f['shape']))[:300]}",
                     {"failure": f}, False)
     # bounded breadth-first rewriting on the real code
-    depth, cap = (3, 120) if tier == "quick" else (4, 400)
+    depth, cap = (3, 300) if tier == "quick" else (4, 1500)
     p = run_venv("rewrite_bfs.py", [str(depth), str(cap), "16"], timeout=7200)
     bounded = {}
     if p.returncode != 0:
         R.engine_errors.append("tier-B BFS failed: " + p.stderr[-400:])
     else:
-        bounded = json.loads(p.stdout)
+        bounded = tierb_json(p, R)
         for f in bounded.get("failures", []):
             k = match_known(known, "C09", {"cfg": f.get("cfg", ""), "clause": f["clause"], "shape": {}, "cases": [], "detail": f["detail"]})
             if k is not None:
